@@ -1414,7 +1414,9 @@ namespace bloch::runtime {
         }
     }
 
-    void RuntimeEvaluator::destroyObject(Object* obj, bool runUserDestructor) {
+    void RuntimeEvaluator::destroyObject(const std::shared_ptr<Object>& self,
+                                         bool runUserDestructor) {
+        Object* obj = self.get();
         if (!obj || obj->destroyed)
             return;
         obj->destroyed = true;
@@ -1435,7 +1437,9 @@ namespace bloch::runtime {
                 beginScope();
                 Value thisVal;
                 thisVal.type = Value::Type::Object;
-                thisVal.objectValue = std::shared_ptr<Object>(obj, [](Object*) {});
+                // 'this' owns the storage: a destructor that stores it somewhere must not leave a
+                // dangling reference behind once the object has been destroyed.
+                thisVal.objectValue = self;
                 thisVal.className = cur->name;
                 m_env.back()["this"] = {thisVal, false, true};
                 for (auto& stmt : cur->destructorDecl->body->statements) {
@@ -2414,13 +2418,15 @@ namespace bloch::runtime {
                                  "cannot instantiate static or abstract class '" + cls->name + "'");
             }
             auto deleter = [this](Object* obj) {
+                // The storage is freed when the last reference to 'self' goes: normally right
+                // here, later only if the destructor leaked 'this'.
+                std::shared_ptr<Object> self(obj, [](Object* o) { delete o; });
                 try {
-                    destroyObject(obj, !obj->skipDestructor);
+                    destroyObject(self, !obj->skipDestructor);
                 } catch (const BlochError& err) {
                     if (!m_deferredDestructorError)
                         m_deferredDestructorError = err;
                 }
-                delete obj;
             };
             auto obj = std::shared_ptr<Object>(new Object{}, deleter);
             obj->cls = cls;
